@@ -16,6 +16,7 @@ mod targets;
 mod c02;
 mod nuts;
 mod c14;
+mod c06;
 
 use util::Out;
 
@@ -48,6 +49,7 @@ fn main() {
         "C03" => nuts::run_c03(&mut out),
         "C04" => nuts::run_c04(&mut out),
         "C14" => c14::run(&mut out),
+        "C06" => c06::run(&mut out),
         _ => {
             eprintln!("unknown property {prop}");
             std::process::exit(2);
